@@ -85,7 +85,25 @@ def gen_case(seed, i, mode):
             else:
                 script.append(['think', r.choice((1, 3, 10, 30, 80))])
         callers.append(script)
-    if not any(op[0] == 'call' for s in callers for op in s) and r.random() < 0.8:
+    closer = r.random() < 0.15
+    if closer:
+        # close() interleaved with pre-starts: only caller 0 calls or closes, the others only pre-start, so that no
+        # call can be in flight when the connection is closed (what close() must do to a call in flight is not stated)
+        callers = [[op for op in s if op[0] != 'call'] or [['prepare']] for s in callers]
+        script = []
+        for _ in range(r.choice((2, 3, 4, 5))):
+            x = r.random()
+            if x < 0.3:
+                script.append(['prepare'])
+            elif x < 0.6:
+                script.append(['close'])
+            elif x < 0.85:
+                script.append(['call', 't0_%d' % tok])
+                tok += 1
+            else:
+                script.append(['think', r.choice((1, 3, 10, 30))])
+        callers[0] = script
+    if not closer and not any(op[0] == 'call' for s in callers for op in s) and r.random() < 0.8:
         callers[r.randrange(ncallers)].append(['call', 't9_%d' % tok])
     gran = r.choice(('line', 'opcode', 'opcode'))
     kind = r.choice(('random', 'random', 'access', 'pct'))
@@ -102,7 +120,8 @@ def gen_case(seed, i, mode):
         'callers': callers, 'main_prepare': r.random() < 0.3, 'gran': gran, 'sched': sched,
         'launch_delays': delays, 'session2': session2, 'analyse': r.random() < 0.25,
         'vanish_at': r.choice(('idle', 'after_send', 'in_request', 'after_reply')),
-        'faults': {},
+        'faults': {}, 'closer': closer,
+        'connect_delays': [r.choice((0, 0, 0, 0, 3, 6, 12))],
     }
     if mode == 'launchfail':
         f = {}
@@ -257,6 +276,8 @@ class Run(object):
                            launch_delays=case['launch_delays'],
                            popen_failures=f.get('popen_fail', ()), never_listen=f.get('never_listen', ()))
         self.weak = bool(f)
+        self.world.connect_delays = list(case.get('connect_delays') or [])
+        self.closes_sent = 0
         self.sent = []
         self.answered = []
         self.op_log = []
@@ -366,7 +387,14 @@ class Run(object):
 
         # ---- session 1 oracle
         launches = len(w.procs)
-        if launches != (1 if used else 0):
+        if case.get('closer'):
+            # caller 0 may have ended sessions itself: every close() that found a connection allows one more launch
+            closes = sum(1 for c in w.client_conns if c.is_closed)
+            if launches > closes + 1:
+                self.vio('C16/launch-count/closer/%d-launches-%d-closes' % (launches, closes),
+                         '%d server launches although only %d connections were closed (callers=%r)' % (
+                             launches, closes, case['callers']))
+        elif launches != (1 if used else 0):
             self.vio('C16/launch-count/session1/%d' % launches,
                      '%d server launches for one session (callers=%r)' % (launches, case['callers']))
         for st in w.starters:
@@ -378,7 +406,7 @@ class Run(object):
         if sorted(self.answered) != sorted(self.sent):
             self.vio('C16/answers/mismatch',
                      'tokens sent %r, tokens answered %r' % (sorted(self.sent), sorted(self.answered)))
-        if used and not hasattr(env, 'conn'):
+        if used and not hasattr(env, 'conn') and not case.get('closer'):
             self.vio('C16/session1/no-connection', 'a server was requested but the client has no connection')
 
         # ---- optionally a request that makes the server analyse (and cache) a module before the session ends
